@@ -47,8 +47,8 @@ func operatorRoles(p *core.Program) map[*ssa.Function]string {
 				// op is captured by a closure: a heap cell assigned per switch arm
 				if f, ok := st.Val.(*ssa.Function); ok {
 					for _, cd := range core.CondsAt(b) {
-						op, x, y, ok := core.BinCmp(cd.V)
-						if !ok || !cd.True || op.String() != "==" {
+						op, x, y, ok := cd.Holds()
+						if !ok || op.String() != "==" {
 							continue
 						}
 						if k, ok := core.IntConst(y); ok && core.IsNamed(x.Type(), astPkg, "Operator") {
@@ -74,8 +74,8 @@ func operatorRoles(p *core.Program) map[*ssa.Function]string {
 				}
 				pred := phi.Block().Preds[i]
 				for _, cd := range core.CondsOnEdge(pred, phi.Block()) {
-					op, x, y, ok := core.BinCmp(cd.V)
-					if !ok || !cd.True || op.String() != "==" {
+					op, x, y, ok := cd.Holds()
+					if !ok || op.String() != "==" {
 						continue
 					}
 					if k, ok := core.IntConst(y); ok && core.IsNamed(x.Type(), astPkg, "Operator") {
